@@ -8,25 +8,21 @@
     gate             which optional arguments are passed for a method (jac / hess / bounds),
                      from the regenerated method sets of `solve_scipy`
 -/
+import Optyx.Generated.InitPoint
 import Optyx.Syntax
 import Optyx.Generated.Tables
 
 namespace Optyx.Py
 
-/-- `_INTERIOR_EPSILON = 1e-4`, `_INTERIOR_FRACTION = 0.01` -/
-def interiorEps : Rat := 1 / 10000
-def interiorFrac : Rat := 1 / 100
-
-def rmax (a b : Rat) : Rat := if a ≤ b then b else a
-def rmin (a b : Rat) : Rat := if a ≤ b then a else b
-
-/-- one coordinate of `_compute_initial_point` (None = unbounded on that side) -/
+/-- one coordinate of `_compute_initial_point` (None = unbounded on that side): the four branches are
+    `Generated.initBoth / initLower / initUpper / initFree`, translated expression by expression from the source
+    (with the exact values of the doubles `1e-4` and `0.01`) on every run -/
 def initialCoord (lb ub : Option Rat) : Rat :=
   match lb, ub with
-  | some l, some u => rmin (l + rmax interiorEps (interiorFrac * (u - l))) ((l + u) / 2)
-  | some l, none => l + interiorEps
-  | none, some u => u - 1
-  | none, none => 0
+  | some l, some u => Optyx.Generated.initBoth l u
+  | some l, none => Optyx.Generated.initLower l
+  | none, some u => Optyx.Generated.initUpper u
+  | none, none => Optyx.Generated.initFree
 
 def initialPoint (bounds : List (Option Rat × Option Rat)) : List Rat :=
   bounds.map fun b => initialCoord b.1 b.2
